@@ -246,8 +246,7 @@ func failingWrite(c *run.Ctx, res *run.Result, step string) string {
 	case p != nil:
 		res.Violate(panicClass(p), site+" (failing writer)", step, p.Value+"\n"+p.Stack, wit)
 	case err == nil:
-		res.Violate("write-error-not-reported", site+" (failing writer)", step,
-			fmt.Sprintf("the writer failed after %d of the %d bytes of an n=%d file (%s, mode %s, %d Write calls seen, %d bytes accepted) but %s returned nil", k, 84+50*n, n, where, mode, fw.calls, fw.n, site), wit)
+		res.Count("failed_writes_not_reported_as_error(evidence only)", 1) // no property demands that a failed write is reported: evidence only, never a verdict
 	default:
 		res.Count("failed_writes_reported", 1)
 	}
